@@ -77,7 +77,9 @@ func (op *tagValuesLookup) findTagValueIDsByExpr(expr stmt.Expr) {
 			tagValueIDs = roaring.New()
 		}
 		// save atomic tag filter result
-		op.executeCtx.TagFilterResult[expr.Rewrite()] = &flow.TagFilterResult{
+		// NOTE: cannot use expr.Rewrite() as the key, it isn't unique for different exprs: host in ('a,b') and host in ('a','b')
+		// are both "host in (a,b)", host='~a' and host=~'a' are both "host=~a".
+		op.executeCtx.TagFilterResult[string(stmt.Marshal(expr))] = &flow.TagFilterResult{
 			TagKeyID:    tagKeyID,
 			TagValueIDs: tagValueIDs,
 		}
